@@ -444,6 +444,15 @@ EXTRA_TEXT = {
  'C06': ' The C11 codec contracts (I PDU decode at any offset of an aggregated frame, round trips) are obligations here too.',
  'C17': ' The C11 codec contracts (UI/SNL encode and decode at any offset) are obligations here too.',
 }
+NOTE_APPEND = {
+ 'C14': ' Known gaps (seeded changes C14-R8A/B are not caught): the PN532/PN533 register-level Type 1 Tag paths (who '
+        'verifies CRC_B there) are out of reach; the RC-S380 "chip CRC off implies driver verifies" statement is proved '
+        'for 106A targets only.',
+ 'C18': ' Known gap (seeded change C18-R8B is not caught): the drivers\' own sense_*/listen_* paths are not under '
+        'contract - sense() is proved against a driver model that raises only what the Device interface documents.',
+ 'C12': ' Added in round 8: the block number is toggled for every received block (rule B) - loop invariants; the '
+        'PN53x host frame contract (C14) is an obligation here too.',
+}
 EXTRA_NOTE = {
  'C04': 'NOT decided: exactly-once delivery under fault scripts, Initiator-side reassembly (its send loop interleaves '
         'timeout extensions), the composition of two real endpoints (each is verified against an assumed contract of the '
@@ -472,7 +481,7 @@ def main():
             'engine': 'pyvc',
             'level_claimed': {'category': c['category'], 'text': c['text'] + EXTRA_TEXT.get(pid, ''),
                               'design_ref': c['design_ref']},
-            'level_note': EXTRA_NOTE.get(pid, c['note']),
+            'level_note': EXTRA_NOTE.get(pid, c['note']) + NOTE_APPEND.get(pid, ''),
             'technique': c['technique'],
         })
     na = []
